@@ -163,4 +163,39 @@ func ruleEscapeLoop(c *Ctx) {
 		bad = fmt.Sprintf("expected plain and escape paths, got %d/%d", nPlain, nEsc)
 	}
 	c.Check(bad == "", "escapeBytes:emit", p.Pos(fd), "plain bytes verbatim, escaped bytes through one escape arm, each exactly once", "escapeBytes (emit loop): "+bad, `"a\"b\\c"`)
+	// --- returns: only the verbatim return between the loops (under !esc) and `dst` after the emit loop
+	bad = ""
+	nRetE := 0
+	ast.Inspect(fd.Body, func(n ast.Node) bool {
+		if _, ok := n.(*ast.FuncLit); ok {
+			return false
+		}
+		rs, ok := n.(*ast.ReturnStmt)
+		if !ok {
+			return true
+		}
+		nRetE++
+		switch {
+		case rs.Pos() < loops[0].Pos():
+			bad = "a return at " + p.Pos(rs) + " precedes the scan: the string is not looked at"
+		case rs.Pos() < loops[0].End(), rs.Pos() > loops[1].Pos() && rs.Pos() < loops[1].End():
+			bad = "a return at " + p.Pos(rs) + " leaves from inside a loop: the rest of the string is dropped"
+		case rs.Pos() < loops[1].Pos():
+			under := false
+			for q := p.Parent(rs); q != nil && q != ast.Node(fd.Body); q = p.Parent(q) {
+				if ifs, ok := q.(*ast.IfStmt); ok && nospace(p.Str(ifs.Cond)) == "!esc" && containsNode(ifs.Body, rs) {
+					under = true
+				}
+			}
+			if !under || len(rs.Results) != 1 || nospace(p.Str(rs.Results[0])) != "append(dst,src...)" {
+				bad = "the return at " + p.Pos(rs) + " between the loops is not `append(dst, src...)` under `!esc`"
+			}
+		default:
+			if len(rs.Results) != 1 || nospace(p.Str(rs.Results[0])) != "dst" {
+				bad = "the final return at " + p.Pos(rs) + " does not hand back dst"
+			}
+		}
+		return true
+	})
+	c.Check(bad == "" && nRetE >= 1, "escapeBytes:returns", p.Pos(fd), "verbatim return only when nothing needs escaping; otherwise dst after the emit loop", "escapeBytes: "+bad, "a key or string value on that path")
 }
